@@ -17,16 +17,21 @@ from vf.checks import arena_common as ac
 PID = "C17"
 THM = ["YaraModel.Thm.C17"]
 MANIFEST = dict(
-    technique="Lean 4 proof over an executable model of yr_arena_load_stream (every cut point before the relocation section is rejected; negation witness "
-              "inside it) + exhaustive/sectioned truncation and single-field corruption of real images loaded by the real loader and by the model",
-    text="proof: Thm/C17.lean proves for every arena (at most 16 buffers, each below 2 GiB) and EVERY cut point before the end of the buffer bodies that the "
-         "loader rejects the prefix (INVALID_FILE inside the header, CORRUPT_FILE inside table and bodies), and that a trailing partial relocation entry is "
-         "ignored. For cut points inside the relocation section the property is FALSE for this file format (no count, no terminator): a proved witness and the "
-         "harness show acceptance; recorded as known finding F9. Corruptions of header and table fields are enumerated on real images (sampled values per "
-         "field), loaded by the real loader under ASan and by the model, and both must reject.",
+    technique="Lean 4 proof over an executable model of yr_arena_load_stream (every cut point before the relocation section is rejected; acceptance of "
+              "cuts inside it proved as the negation) + exhaustive/sectioned truncation and single-field corruption of real images loaded by the real "
+              "loader and by the model",
+    text="proof: Thm/C17.lean proves for every arena (at most 16 buffers, each below 2 GiB), every loader configuration (with or without the proposed "
+         "hardening) and EVERY cut point before the end of the buffer bodies that the loader rejects the prefix (prefix_header: INVALID_FILE; prefix_table, "
+         "prefix_bodies: CORRUPT_FILE), and what happens to a trailing partial relocation entry (applyRelocs_partial). For cut points inside the relocation "
+         "section the property is FALSE for this file format (no count, no terminator): reloc_cut_accepted proves, for every well-formed arena and every k, "
+         "that the image cut after its k-th relocation entry is accepted with only k entries applied (reloc_cut_accepted_witness: a concrete instance with "
+         "an unconverted reference left in a registered slot); the harness shows the same on real files; recorded as known finding F9. Corruptions of header "
+         "and table fields are enumerated on real images (a value set per field), loaded by the real loader under ASan/UBSan and by the model; both must "
+         "reject, deviations are listed as known findings with the field as signature.",
     design_ref="DESIGN.md §5 C17, §4 D9, §6 F9",
     note=core.TB + "The model covers arena.c's loader and the summary test of rules.c; what the scanner does with rules that were wrongly accepted is observed "
-         "(crash / different results), not modelled. Field corruptions use a value set per field (boundaries, bit flips, neighbours), not all 2^32/2^64 values.")
+         "(crash / different results), not modelled. Field corruptions use a value set per field (boundaries, bit flips, neighbours), not all 2^32/2^64 values. "
+         "Quick tier samples the cut points inside the relocation section (exhaustive in the thorough tier).")
 
 HDR = 6
 ENT = 12
@@ -141,7 +146,7 @@ def run(tier, replay=None):
         return chk.finish("proof")
 
     if lres.get("driver_ok") and not replay:
-        f, cov, u = ac.ops_tie(chk, b, 400 if tier == "quick" else 6000, PID + "/ops")
+        f, cov, u = ac.ops_tie(chk, b, 400 if tier == "quick" else 6000, PID + "/ops", growth=False)
         found |= f
         ubs |= u
         chk.cov.update(cov)
